@@ -131,6 +131,10 @@ def datetime_text(rng):
 
     dt = datetime.datetime(2000 + rng.randrange(100), rng.randint(1, 12), 1, rng.randrange(24), rng.randrange(60), rng.randrange(60))
     dt = dt.replace(day=rng.randint(1, 28))
+    if rng.random() < 0.15:
+        # the nights in which European / American / Australian clocks are changed (the transmitted local time is to come back as sent)
+        y, mo, d = rng.choice(((2027, 3, 28), (2026, 3, 29), (2026, 10, 25), (2026, 3, 8), (2026, 11, 1), (2026, 10, 4), (2026, 4, 5)))
+        dt = datetime.datetime(y, mo, d, rng.choice((1, 2, 2, 3)), rng.choice((0, 15, 30, 59)), rng.randrange(60))
     return dt.strftime("%y%m%d%H%M%S") + rng.choice(("", "W", "S")), dt
 
 
